@@ -1026,7 +1026,12 @@ DFANIgetann(const char *filename, uint16 tag, uint16 ref, uint8 *ann, int32 maxl
         Hendaccess(aid);
         HCLOSE_GOTO_ERROR(file_id, DFE_READERROR, FAIL);
     }
-    if ((int32)FAIL == Hread(aid, annlen, ann)) { /* read the annotation */
+    if (annlen < 0) { /* no room at all (not even for a label's terminator) */
+        Hendaccess(aid);
+        HCLOSE_GOTO_ERROR(file_id, DFE_ARGS, FAIL);
+    }
+    /* read the annotation (a length of 0 must not reach Hread: there it means "to the end of the element") */
+    if (annlen > 0 && (int32)FAIL == Hread(aid, annlen, ann)) {
         Hendaccess(aid);
         HCLOSE_GOTO_ERROR(file_id, DFE_READERROR, FAIL);
     }
